@@ -369,8 +369,8 @@ func (c *linCtx) atomFacts(done map[string]bool) bool {
 				nonneg()
 			}
 			if !wideInt(v.Type()) {
-				c.fact(self.addConst(-hi))         // v <= hi
-				c.fact(newLin(lo).sub(self))       // lo <= v
+				c.fact(self.addConst(-hi))   // v <= hi
+				c.fact(newLin(lo).sub(self)) // lo <= v
 			}
 		}
 		switch x := v.(type) {
@@ -390,7 +390,7 @@ func (c *linCtx) atomFacts(done map[string]bool) bool {
 				}
 				if x.Op == token.QUO {
 					cq := newLin(0).addScaled(self, big.NewRat(k2, 1))
-					c.fact(cq.sub(e))                   // c*q <= e
+					c.fact(cq.sub(e))                     // c*q <= e
 					c.fact(e.sub(cq).addConst(-(k2 - 1))) // e <= c*q + c-1
 					nonneg()
 				} else {
